@@ -50,6 +50,7 @@ def uses_decl(fs, decl_name):
 def formulas_for(obl, axioms=()):
     fs = list(obl.assumptions) + list(obl.fplog.facts) + obl.fplog.landmark_facts() \
         + strconst_axioms() + list(axioms)
+    fs += FP.commutativity_instances(fs + [obl.goal])
     return fs, obl.goal
 
 
